@@ -8,7 +8,7 @@
 (c) TLC (spec/Trace_HintFile.tla) validates every observation against the specification side of
     HintFile.tla; failures are accumulated in `bad` and mapped to verdicts here.
 """
-import bisect, hashlib, json, os, random, re, time, copy
+import bisect, hashlib, json, os, random, re, time, copy, shutil, subprocess, sys
 from concurrent.futures import ThreadPoolExecutor
 import vcommon as V
 
@@ -356,9 +356,9 @@ def gen_cases(tier, seed, work, log):
         pick = []
         for cfg in sorted({a['cfg'] for a in abstract}):
             grp = [a for a in abstract if a['cfg'] == cfg]
-            pick += grp if cfg < 2 else rng.sample(grp, min(2500, len(grp)))
+            pick += grp if cfg < 2 else rng.sample(grp, min(3500, len(grp)))
     cases = [materialise(rng, ac, 't%d' % i) for i, ac in enumerate(pick)]
-    plan = {'quick': dict(small=150, medium=30, large=2), 'thorough': dict(small=2000, medium=400, large=24)}[tier]
+    plan = {'quick': dict(small=150, medium=30, large=2), 'thorough': dict(small=3000, medium=600, large=36)}[tier]
     i = 0
     for size in ('large', 'medium', 'small'):
         for _ in range(plan[size]):
@@ -477,34 +477,113 @@ def _pack(sid, evs):
     return sid, _cost(evs), len(evs), ''.join(json.dumps(e, separators=(',', ':')) + '\n' for e in evs)
 
 
-_G = {}
+# ---- per-shard pipeline: harness process -> normaliser process (this file, `--norm`) -> files.
+# The orchestrator never holds the raw observations of a whole tier in memory.
+def norm_shard(work, i):
+    """normalise the observations of shard i: norm-i.ndjson (TLC events, case after case) + norm-i.idx.json"""
+    cases = {}
+    for line in open(os.path.join(work, 'scen-%d.ndjson' % i)):
+        if line.strip():
+            c = json.loads(line)
+            cases[c['id']] = c
+    idx = {'cases': [], 'selftest': [], 'head': None}
+    out = open(os.path.join(work, 'norm-%d.ndjson' % i), 'w')
+    pos = 0
+
+    def finish(sid, evs):
+        nonlocal pos
+        c = cases[sid]
+        complete = bool(evs) and evs[-1].get('a') == 'End'
+        _, cost, nev, text = _pack(sid, normalize(c, evs))
+        out.write(text)
+        nlook = sum(len(e['q']) for e in evs if e['a'] == 'Lookup')
+        nabs = sum(1 for e in evs if e['a'] == 'Lookup' for q in e['q'] if q[2] != 'found')
+        idx['cases'].append({'sid': sid, 'cost': cost, 'nev': nev, 'off': pos, 'len': len(text), 'complete': complete,
+                             'nontrivial': nontrivial(c, evs), 'digest': case_digest(c), 'nlook': nlook, 'nabs': nabs})
+        pos += len(text)
+        if idx['head'] is None and c.get('src') == 'tlc':
+            idx['head'] = {'sid': sid, 'trace_head': trace_head(evs)}
+        if len(idx['selftest']) < 2 and c.get('src') in ('tlc', 'random-small', 'random-medium') \
+                and sum(len(f['set']) for f in c['files']) <= 300 and len(corruptions(c, evs)) >= 8:
+            idx['selftest'].append({'sid': sid, 'events': evs})
+    cur, evs = None, []
+    tp = os.path.join(work, 'trace-%d.ndjson' % i)
+    if os.path.exists(tp):
+        for line in open(tp):
+            if not line.strip():
+                continue
+            e = json.loads(line)
+            if e.get('a') == 'Reset':
+                if cur is not None:
+                    finish(cur, evs)
+                cur, evs = e['sid'], []
+            if cur is not None:
+                evs.append(e)
+        if cur is not None:
+            finish(cur, evs)
+    out.close()
+    json.dump(idx, open(os.path.join(work, 'norm-%d.idx.json' % i), 'w'))
 
 
-def _norm_job(i):
-    c = _G['cases'][i]
-    return _pack(c['id'], normalize(c, _G['traces'][c['id']]))
-
-
-def normalize_all(cases, traces, procs=8):
-    """normalise + serialise every case (forked workers; the inputs are inherited, only the text comes back)"""
-    if len(cases) < 3000:                 # (forking a big process costs more than 2 s of single-process work)
-        return [_pack(c['id'], normalize(c, traces[c['id']])) for c in cases]
-    import multiprocessing as mp
-    _G['cases'], _G['traces'] = cases, traces
+def _run_shard(args):
+    i, tb, part, work, timeout = args
+    inp = os.path.join(work, 'scen-%d.ndjson' % i)
+    outp = os.path.join(work, 'trace-%d.ndjson' % i)
+    wd = os.path.join(work, 'run-%d' % i)
+    logp = os.path.join(work, 'run-%d.log' % i)
+    os.makedirs(wd, exist_ok=True)
+    with open(inp, 'w') as f:
+        for c in part:
+            f.write(json.dumps(c) + '\n')
+    env = dict(V.GOENV, GOMAXPROCS='2')             # 16 single-threaded harness processes side by side
+    cmd = [tb, '-test.run', '^TestVerifHint$', '-test.timeout', '%ds' % timeout, '-verif.in', inp, '-verif.out', outp,
+           '-verif.work', wd]
+    with open(logp, 'w') as lf:
+        try:
+            rc = subprocess.run(cmd, cwd=os.path.join(V.REPO, 'store'), stdout=lf, stderr=subprocess.STDOUT, env=env,
+                                timeout=timeout + 60).returncode
+        except subprocess.TimeoutExpired:
+            rc = -9
+    shutil.rmtree(wd, ignore_errors=True)
+    if rc != 0:
+        return {'crash': (i, rc, open(logp).read()[-2000:])}
+    r = subprocess.run([sys.executable, os.path.abspath(__file__), '--norm', work, str(i)], stdout=subprocess.PIPE,
+                       stderr=subprocess.STDOUT, text=True)
+    if r.returncode != 0:
+        return {'crash': (i, r.returncode, 'normaliser: ' + r.stdout[-2000:])}
     try:
-        with mp.get_context('fork').Pool(procs) as pool:
-            return pool.map(_norm_job, range(len(cases)), chunksize=1)     # largest first, one case per task
-    finally:
-        _G.clear()
+        os.remove(outp)
+    except OSError:
+        pass
+    idx = json.load(open(os.path.join(work, 'norm-%d.idx.json' % i)))
+    idx['shard'] = i
+    return idx
+
+
+def run_cases(tb, cases, work, shards=V.NCPU, timeout=1500):
+    """execute the cases on the real code, 16-wide, and normalise the observations shard by shard"""
+    shards = max(1, min(shards, len(cases)))
+    jobs = [(i, tb, cases[i::shards], work, timeout) for i in range(shards)]
+    with ThreadPoolExecutor(max_workers=shards) as ex:
+        res = list(ex.map(_run_shard, jobs))
+    crashed = [r['crash'] for r in res if 'crash' in r]
+    if crashed:
+        raise V.Inconclusive('harness process died: shard %s rc=%s %s' % crashed[0])
+    return res
 
 
 def _validate_shard(args):
-    i, texts, nev, work = args
+    i, parts, nev, work = args
     rundir = os.path.join(work, 'tv%s' % i)
     os.makedirs(rundir, exist_ok=True)
-    with open(os.path.join(rundir, 'trace.ndjson'), 'w') as f:
-        for t in texts:
-            f.write(t)
+    with open(os.path.join(rundir, 'trace.ndjson'), 'wb') as f:
+        for p in parts:
+            if isinstance(p, str):
+                f.write(p.encode('ascii'))
+            else:                                   # (file, offset, length) of a normalised case (ASCII: chars = bytes)
+                with open(p[0], 'rb') as src:
+                    src.seek(p[1])
+                    f.write(src.read(p[2]))
     r = V.tlc_run('Trace_HintFile', 'Trace_HintFile.cfg', rundir, workers=1, timeout=3000, java=JAVA_SHORT)
     res = {'bad': [], 'drift': [], 'consumed': -1, 'out': r['out'], 'wall': r['wall'], 'states': r['distinct'], 'n': nev}
     m = re.findall(r'<<"VERIF-RESULT", "(.*)">>', r['out'])
@@ -527,7 +606,8 @@ def _validate_shard(args):
 
 
 def validate(packed, work, shards, tag=''):
-    """packed: list of (sid, cost, nevents, ndjson text) per case; balanced over `shards` TLC processes (1 worker each)."""
+    """packed: list of (sid, cost, nevents, text | (file, offset, length)) per case; balanced over `shards` TLC
+    processes (1 worker each)."""
     bins = [[0, [], 0] for _ in range(max(1, min(shards, len(packed))))]
     for sid, cost, nev, text in sorted(packed, key=lambda x: -x[1]):
         b = min(bins, key=lambda b: b[0])
@@ -626,26 +706,17 @@ def corruptions(case, events):
     return out
 
 
-def self_test(cases, traces, work, log):
+def self_test(picked, byid, work, log):
     """the binding is real: altered observations must be rejected by TLC (else the run is inconclusive)"""
     per, want = [], {}
-    picked = 0
-    for c in cases:
-        ev = traces.get(c['id'])
-        if not ev or c.get('src') not in ('tlc', 'random-small', 'random-medium'):
-            continue
-        cs = corruptions(c, ev)
-        if len(cs) < 8:
-            continue
-        for tag, cev in cs:
+    for p in picked[:6]:
+        c = byid[p['sid']]
+        for tag, cev in corruptions(c, p['events']):
             sid = cev[0]['sid']
             want[sid] = tag
             per.append(_pack(sid, normalize(c, cev)))
-        picked += 1
-        if picked >= 6:
-            break
     if not per:
-        return 0
+        raise V.Inconclusive('binding self-test: no suitable case')
     r = validate(per, work, 4, tag='st')
     got = {}
     for sid, n, chk in r['bad']:
@@ -710,24 +781,25 @@ def run(pid, tier, seed, work, log, replay=None):
         # ---- (b) execute on the real code
         tb = tbf.result()
         log('harness built; %d cases' % len(cases))
-        big = sorted(cases, key=lambda c: -sum(len(f['set']) for f in c['files']))
-        order = big[:]                                            # large cases first in every shard
-        V.GOENV.setdefault('GOMAXPROCS', '2')                     # 16 single-threaded harness processes side by side
-        traces, crashed = V.run_scenarios(tb, order, work, runname='TestVerifHint')
-        if crashed:
-            raise V.Inconclusive('harness process died: %s' % crashed[0][2][-800:])
-        missing = [c['id'] for c in cases if c['id'] not in traces or traces[c['id']][-1].get('a') != 'End']
+        order = sorted(cases, key=lambda c: -sum(len(f['set']) for f in c['files']))   # large cases first in every shard
+        shards = run_cases(tb, order, work)
+        info = {}
+        per = []
+        for sh in shards:
+            nf = os.path.join(work, 'norm-%d.ndjson' % sh['shard'])
+            for ci in sh['cases']:
+                info[ci['sid']] = ci
+                per.append((ci['sid'], ci['cost'], ci['nev'], (nf, ci['off'], ci['len'])))
+        missing = [c['id'] for c in cases if c['id'] not in info or not info[c['id']]['complete']]
         if missing:
             raise V.Inconclusive('no complete trace for cases %s' % missing[:5])
-        log('executed %d cases on the real code (%.1fs)' % (len(cases), time.time() - t0))
+        log('executed %d cases on the real code, observations normalised (%.1fs)' % (len(cases), time.time() - t0))
         # ---- (c) TLC validates the observations
-        per = normalize_all(cases, traces)
-        log('observations normalised (%.1fs)' % (time.time() - t0))
         r = validate(per, work, 12 if tier == 'thorough' else 6)
         log('TLC validated %d observation events of %d cases (%.1fs wall of the slowest shard)' % (r['events'], len(per), r['wall']))
         ntest = 0
         if tier == 'thorough' and not replay:
-            ntest = self_test(cases, traces, work, log)
+            ntest = self_test([p for sh in shards for p in sh['selftest']], byid, work, log)
         if mcf is not None:
             states, trans, mcruns, leads = mcf.result()
             res['lead'] += leads
@@ -737,21 +809,18 @@ def run(pid, tier, seed, work, log, replay=None):
         name, _, kf = chk.partition('!')
         res['known' if kf else 'violations'].append({'sid': sid, 'n': n, 'check': name, 'kf': kf})
     res['drift'] = sorted(set((sid, what) for sid, n, what in r['drift']))[:50]
-    nt = {}
-    nlook = nabs = 0
-    for c in cases:
-        ev = traces[c['id']]
-        for e in ev:
-            if e['a'] == 'Lookup':
-                nlook += len(e['q'])
-                nabs += sum(1 for q in e['q'] if q[2] != 'found')
-        if nontrivial(c, ev):
-            nt[case_digest(c)] = 1
-    sample = next((c for c in cases if c.get('src') == 'tlc'), cases[0])
+    nt = {ci['digest'] for ci in info.values() if ci['nontrivial']}
+    nlook = sum(ci['nlook'] for ci in info.values())
+    nabs = sum(ci['nabs'] for ci in info.values())
+    head = next((sh['head'] for sh in shards if sh.get('head')), None)
+    if head:
+        sample, shead = byid[head['sid']], head['trace_head']
+    else:
+        sample, shead = cases[0], []
     res['coverage'] = {
         'states': max(states, 1) if not replay else 1, 'transitions': max(trans, 1) if not replay else 1,
         'traces_validated_against_impl': len(per),
-        'samples': [{'case': sample, 'trace_head': trace_head(traces[sample['id']])}],
+        'samples': [{'case': sample, 'trace_head': shead}],
         'evaluations': len(cases), 'distinct_nontrivial': len(nt),
         'rule': 'distinct case contents (sha1 of interval+files+lookups) in which a lookup started from a sparse-index entry '
                 '(real index with >= 2 entries, present and absent keys looked up) or a merge met a key in >= 2 sources / a same-hash group',
@@ -767,3 +836,8 @@ def run(pid, tier, seed, work, log, replay=None):
     res['scen'] = byid
     res['wall'] = time.time() - t0
     return res
+
+
+if __name__ == '__main__':
+    if len(sys.argv) == 4 and sys.argv[1] == '--norm':
+        norm_shard(sys.argv[2], int(sys.argv[3]))
